@@ -77,3 +77,31 @@ Theorem c20_index_text_is_index : forall i maxIdx,
 Proof. exact index_text_is_index. Qed.
 Print Assumptions c20_index_text_is_index.
 
+
+(* Names inside expressions: the name on the left of the default and error operators is looked up
+   along exactly the path the parser builds for the plain reference ${name} under the options of
+   the call - the segment rule above (indices, EnableNumKeys, EscapePath, MaxIdx) is the same one. *)
+From Ucfg Require Import Merge OTree F64 ParseValue VarParse Normalize Flags VarEval SpecEval ProofsSpec.
+Theorem c20_default_operator_reads_reference : forall o dv n r sep root st, n <> ""%string ->
+  exp_s o dv (EDefault (EConst n) r sep) root st
+  = match exp_s o dv (ERef (parse_path n sep (p_maxIdx (eo_p o)) (p_numKeys (eo_p o)) (p_escape (eo_p o))) sep) root st with
+    | Ok (v, m) => if String.eqb v "" then taint m (exp_s o dv r root st) else Ok (v, m)
+    | Err e p => taint (cyc_err e p) (exp_s o dv r root st)
+    | Panic => Panic
+    | OutOfModel => OutOfModel
+    end.
+Proof. exact default_operator_reads_reference. Qed.
+Print Assumptions c20_default_operator_reads_reference.
+
+Theorem c20_error_operator_reads_reference : forall o dv n r sep root st, n <> ""%string ->
+  exp_s o dv (EErr (EConst n) r sep) root st
+  = match exp_s o dv (ERef (parse_path n sep (p_maxIdx (eo_p o)) (p_numKeys (eo_p o)) (p_escape (eo_p o))) sep) root st with
+    | Ok (v, m) => if String.eqb v ""
+                   then (y <- taint m (exp_s o dv r root st) ;; taint (snd y) (Err EOther "!raw"))
+                   else Ok (v, m)
+    | Err e p => (y <- taint (cyc_err e p) (exp_s o dv r root st) ;; taint (snd y) (Err EOther "!raw"))
+    | Panic => Panic
+    | OutOfModel => OutOfModel
+    end.
+Proof. exact error_operator_reads_reference. Qed.
+Print Assumptions c20_error_operator_reads_reference.
